@@ -21,7 +21,7 @@ DESIGN_REF = "DESIGN.md §3 C05"
 RULE = (
     "Histories over 2-5 vertices of C01's full mutation alphabet (edge constructors of 6 classes incl. self-loops "
     "and None ends, v1=/v2=, link_*(dontdup), unlink, add_to_link/remove_from_link, add_vertex/unlink_from, "
-    "Vertex(links=)) interleaved with flag toggles (Vertex.NEIGHBOR_CACHING on/off at arbitrary points, incl. "
+    "Vertex(links=), load_adj_dict / load_adj_matrix on existing vertices) interleaved with flag toggles (Vertex.NEIGHBOR_CACHING on/off at arbitrary points, incl. "
     "'mutate while off, query after on'), query points and an in-process nrpickler round-trip of the whole world.  "
     "Each history is executed twice on fresh objects (A: flag forced off; B: generated flag schedule) and the full "
     "query battery - neighbors() for every vertex x 3 directions x 3 unknown modes x {no filter, shared callable, "
@@ -46,7 +46,7 @@ TECHNIQUE = "differential stateful PBT: same Hypothesis-generated history execut
 
 OPS_W = (
     ["edge"] * 5 + ["v1"] * 3 + ["v2"] * 3 + ["link"] * 2 + ["unlink"] * 2
-    + ["al", "rl", "av", "uf"] + ["newv"] + ["flag"] * 3 + ["query"] * 5 + ["repickle"]
+    + ["al", "rl", "av", "uf"] + ["newv", "adj"] + ["flag"] * 3 + ["query"] * 5 + ["repickle"]
 )
 
 
@@ -148,6 +148,8 @@ def check_case(case):
                         classes.add("mutated-on-vertex-side")
                     elif o in ("av", "uf"):
                         classes.add("mutated-on-link-side")
+                    elif o == "adj":
+                        classes.add("mutated-by-adjacency-builder")
                     elif o == "repickle":
                         classes.add("repickled-between")
                 if "flag-off" in ops:
